@@ -374,11 +374,11 @@ impl<'a> Model<'a> {
     }
 
     /// The run was killed (a crash: no CLOSE, no drop, no flush ran afterwards). Every
-    /// statement before the one under way was matched completely, so the store that
-    /// survives must hold, for every file that statement does not touch, exactly the bytes
-    /// of the completed statements: a file that was closed before the crash point keeps all
-    /// of its content, and no file holds bytes that were never written. RANDOM files are
-    /// judged through GET only.
+    /// statement before the one under way was matched completely. For every file that
+    /// statement does not touch: a file that is not open for writing at the crash point
+    /// (it was closed before, or never opened) holds exactly the bytes of the completed
+    /// statements; a file that is still open for writing holds a prefix of them (the
+    /// property promises its text "once closed"). RANDOM files are judged through GET only.
     fn crash_checks(&mut self) -> R<()> {
         let actual = self.w.fs.snapshot();
         let mut loose: std::collections::BTreeSet<String> = Default::default();
@@ -428,7 +428,20 @@ impl<'a> Model<'a> {
             }
             let a = actual.get(n);
             let m = self.store.get(n);
-            if a != m && detail.is_none() {
+            // A file that is still open for writing is not covered by "once closed, read
+            // back unchanged": text of completed statements may not have reached the disk
+            // yet (an implementation may buffer). What survives must still be a prefix of
+            // what was written - old or new, never garbage.
+            let acceptable = if is_open_for_writing {
+                match (a, m) {
+                    (Some(a), Some(m)) => m.starts_with(a),
+                    (None, _) => true,
+                    (Some(a), None) => a.is_empty(),
+                }
+            } else {
+                a == m
+            };
+            if !acceptable && detail.is_none() {
                 detail = Some(format!(
                     "after a crash at instruction {} file {:?} ({}) holds {:?}; the statements completed before the crash point wrote {:?}",
                     self.w.instr,
